@@ -25,7 +25,7 @@ import math
 import operator
 import sys
 import numpy as np
-from mc import alph, ref
+from mc import alph, ref, hist
 from mc.core import call, HarnessError
 
 PROP = 'C20'
@@ -267,7 +267,7 @@ def run_arith(ctx, lcls, opn, tier, seed):
                     for xn, xv in REJ:
                         for yn, yv in REJ:
                             cid = '%s/reject/x=%s/y=%s' % (pre, xn, yn)
-                            if not ctx.want(cid):
+                            if not (ctx.want(cid) or ctx.only == cid + '/inplace'):
                                 continue
                             ctx.case(cid, trivial=(xn == 'z' and yn == 'z'))
                             p = dict(P, grid='reject', mag=1)
@@ -277,6 +277,15 @@ def run_arith(ctx, lcls, opn, tier, seed):
                                 continue
                             ok, got = call(f, a, b)
                             must_raise(ctx, cid, site, p, ok, got, '%s(%d) %s %s(%d)' % (lcls, m, opn, rcls, n))
+                            # the augmented assignment is the same operation and must refuse the same operands
+                            cid2 = cid + '/inplace'
+                            if ctx.want(cid2):
+                                ctx.case(cid2, trivial=(xn == 'z' and yn == 'z'))
+                                a2 = build(ctx, cid2, lcls, [(s + 1) * xv for s in range(m)], p)
+                                b2 = build(ctx, cid2, rcls, [(s + 2) * yv for s in range(n)], p)
+                                if a2 is not None and b2 is not None:
+                                    ok, got = call(operator.iadd if opn == 'add' else operator.isub, a2, b2)
+                                    must_raise(ctx, cid2, site, dict(p, inplace=1), ok, got, '%s(%d) %s= %s(%d)' % (lcls, m, '+' if opn == 'add' else '-', rcls, n))
                     continue
                 # ---- same class, equal length: element-wise
                 if m == 1:
@@ -868,6 +877,25 @@ def run_rmul(ctx, cls, part, nparts, tier, seed):
             tol = 0.0 if (exact and grid == 'basis') else TOL * amx * amax(xs_)
             verdict(ctx, cid, site, P, ok, got, (cls,), [Mx @ v for v in xs_], tol,
                     'SE3 * %s(%d) [%s]' % (cls, len(xs_), 'Ad(T) x' if cls in MOTION else 'Ad(T)^T x'))
+        # the same pose value in an object with a history (it transformed spatial vectors while it held another value)
+        def warm(o):
+            for c_ in CLS:
+                try:
+                    o * getattr(sv, c_)(np.arange(1.0, 7.0))
+                except Exception:
+                    pass
+        for tag, Xh in hist.variants(X, warm, fresh=False):
+            for i in range(6):
+                cid = 'C20/rmul/%s/T=%s/hist=%s/e%d' % (CODE[cls], tname, tag, i)
+                if not ctx.want(cid):
+                    continue
+                ctx.case(cid)
+                P = dict(P0, n=1, multi=0, grid='basis', mag=1, hist=tag)
+                x = build(ctx, cid, cls, [E6[i]], P)
+                if x is None:
+                    continue
+                ok, got = call(operator.mul, Xh, x)
+                verdict(ctx, cid, site, P, ok, got, (cls,), [Mx @ E6[i]], 0.0 if exact else TOL * amx, 'SE3 (after %s) * %s' % (tag, cls))
 
 
 # --------------------------------------------------------------------------- informational probes
